@@ -822,7 +822,7 @@ def _restore_equivalent(repo: Repo, census: dict, report: dict[str, object]) -> 
     function written differently: the rules read the confirmed spelling"""
     from .canonical import _inline_temps as inline_temps
     from .canonical import _shape_blocks as shape_blocks
-    from .canonical import inline_new_temps
+    from .canonical import drop_new_log_statements, inline_new_temps
     from .canonical import canonical_hash, signatures_of, toward_reference
 
     sig = signatures_of({mi.relpath: mi.tree for mi in repo.modules.values()})
@@ -843,21 +843,23 @@ def _restore_equivalent(repo: Repo, census: dict, report: dict[str, object]) -> 
             if src is None and sources:
                 # a new function: no reference spelling to respect; temporaries that only name the next statement's operand are substituted
                 try:
-                    k_ = inline_temps(fn.node)
-                    k_ += _positional(fn.node, sig, all_ref_kw)
-                    notes_: list[str] = []
-                    fn.node.body = shape_blocks(fn.node.body, {}, notes_)
-                    k_ += len(notes_)
+                    empty = ast.parse("def _(): pass").body[0]
+                    k_ = drop_new_log_statements(fn.node, empty)  # type: ignore[arg-type]
+                    k_ += len(toward_reference(fn.node, empty, sig, all_ref_kw))  # type: ignore[arg-type]
                     if k_:
                         ast.fix_missing_locations(fn.node)
                         report.setdefault("respelled_new_function", []).append(fn.where)  # type: ignore[union-attr]
                 except RecursionError:
                     pass
                 continue
-            if src is None or (shas.get(fn.qualname) == _body_sha(fn) and ast.dump(fn.node.args) == ast.dump(ast.parse(src).body[0].args)):  # type: ignore[attr-defined]
+            if src is None or ast.dump(fn.node) == ast.dump(ast.parse(src).body[0]):  # unchanged
                 continue
             try:
                 ref = ast.parse(src).body[0]
+                if isinstance(ref, ast.FunctionDef):
+                    k_l = drop_new_log_statements(fn.node, ref)
+                    if k_l:
+                        report.setdefault("dropped_new_log_statements", []).append(f"{fn.where}: {k_l}")  # type: ignore[union-attr]
                 if not isinstance(ref, ast.FunctionDef) or ast.dump(ast.Module(ref.decorator_list, [])) != ast.dump(ast.Module(fn.node.decorator_list, [])):
                     continue
                 same = canonical_hash(fn.node, sig) == canonical_hash(ref, sig)
@@ -885,9 +887,45 @@ def _restore_equivalent(repo: Repo, census: dict, report: dict[str, object]) -> 
             report.setdefault("restored_equivalent", []).append(fn.where)  # type: ignore[union-attr]
 
 
+def _bound_in(fn: ast.FunctionDef) -> set[str]:
+    """parameters and names the function binds itself: a module constant of the same name is shadowed there"""
+    a = fn.args
+    return {x.arg for x in a.args + a.kwonlyargs + a.posonlyargs} | ({a.vararg.arg} if a.vararg else set()) | ({a.kwarg.arg} if a.kwarg else set()) | \
+        {n.id for n in ast.walk(fn) if isinstance(n, ast.Name) and isinstance(n.ctx, ast.Store)}
+
+
+def _new_constants(mi: ModuleInfo, known_globals: set[str]) -> dict[str, ast.AST]:
+    consts: dict[str, ast.AST] = {}
+    for _round in range(3):
+        for name, st in mi.assigns_all:
+            if name in known_globals or name in mi.functions or name in mi.classes or name in consts:
+                continue
+            if sum(1 for n, _ in mi.assigns_all if n == name) != 1:
+                continue
+            val = st.value  # type: ignore[attr-defined]
+            if consts:
+                val = _ConstProp(consts).visit(copy.deepcopy(val))
+            v = _const_value(val, known_globals | set(mi.imports))
+            if v is not None:
+                consts[name] = v
+    return consts
+
+
 def normalize_repo(repo: Repo) -> dict[str, object]:
     census = _load_census().get("modules", {})
     report: dict[str, object] = {"inlined_helpers": [], "kept_helpers": [], "propagated_constants": [], "gave_up": []}
+    # new module-level constants are folded into the functions first: a literal that was given a name is still that literal
+    for mi in repo.modules.values():
+        known = census.get(mi.name)
+        if known is None:
+            continue
+        consts0 = _new_constants(mi, set(known.get("globals", [])))
+        if consts0:
+            for fn in list(mi.functions.values()) + [m for c in mi.classes.values() for m in c.methods.values()]:
+                cp0 = _ConstProp({k: v for k, v in consts0.items() if k not in _bound_in(fn.node)})
+                fn.node = cp0.visit(fn.node)
+                if cp0.hits:
+                    report["propagated_constants"].append(f"{fn.where}: {cp0.hits}")  # type: ignore[union-attr]
     _restore_equivalent(repo, census, report)
     for mi in repo.modules.values():
         known = census.get(mi.name)
@@ -928,19 +966,7 @@ def normalize_repo(repo: Repo) -> dict[str, object]:
         if report.get("renamed_back"):
             _restore_equivalent(repo, {mi.name: known}, report)
         # ---- new constants
-        consts: dict[str, ast.AST] = {}
-        for _round in range(3):
-            for name, st in mi.assigns_all:
-                if name in known_globals or name in mi.functions or name in mi.classes or name in consts:
-                    continue
-                if sum(1 for n, _ in mi.assigns_all if n == name) != 1:
-                    continue
-                val = st.value  # type: ignore[attr-defined]
-                if consts:
-                    val = _ConstProp(consts).visit(copy.deepcopy(val))
-                v = _const_value(val, known_globals | set(mi.imports))
-                if v is not None:
-                    consts[name] = v
+        consts = _new_constants(mi, known_globals)
         # ---- new helpers
         helpers_mod = {f.name: f for f in mi.functions.values() if f.qualname not in known_funcs and _plain(f)}
         all_fns: list[FunctionInfo] = list(mi.functions.values()) + [m for c in mi.classes.values() for m in c.methods.values()]
@@ -966,7 +992,7 @@ def normalize_repo(repo: Repo) -> dict[str, object]:
                         spellings[f"{cname}.{m.name}"] = m
             spellings = {k: v for k, v in spellings.items() if v is not fn}
             if consts:
-                cp = _ConstProp({k: v for k, v in consts.items() if k not in {a.arg for a in fn.node.args.args}})
+                cp = _ConstProp({k: v for k, v in consts.items() if k not in _bound_in(fn.node)})
                 fn.node = cp.visit(fn.node)
                 if cp.hits:
                     report["propagated_constants"].append(f"{fn.where}: {cp.hits}")  # type: ignore[union-attr]
